@@ -53,7 +53,8 @@ EXPECTED_PROBES = ["ndim1", "ndim2", "ndim3", "unset_cell_read", "zero_row_cell"
                    "numpy_int_index", "cell_with_many_rows", "dim_ge_8", "fields_ge_5",
                    "field_assigned_from_field_view_other_field", "flat_restore",
                    "flat_restore_single_populated_cell", "setter_fields", "setter_units",
-                   "rejected_fields_setter_count", "rejected_fields_setter_dup", "rejected_units_setter_count"]
+                   "rejected_fields_setter_count", "rejected_fields_setter_dup", "rejected_units_setter_count",
+                   "bigint_cells"]
 
 OPS = ["set_cell", "get_cell", "slice_get", "slice_set", "field_op", "flatten", "set_flat", "flat_restore",
        "rename",
@@ -93,6 +94,7 @@ def _gen_create(r):
     if big.chance(0.05):
         nf = big.pick([5, 8, 9, 17])
     return {"op": "create", "how": "from_data" if (ndim == 1 and r.chance(0.4)) else "from_shape",
+            "cells": "bigint" if r.fork("regime").chance(0.06) else "mixed",
             "shape": shape, "nf": nf, "named": r.chance(0.6), "units": r.chance(0.5),
             "fill": r.randrange(10 ** 6), "prefill": r.random()}
 
@@ -210,10 +212,20 @@ class MVec:
         return np.vstack(arrs) if arrs else np.empty((0, self.nf))
 
 
+_REGIME = ["mixed"]
+_BIG = [2 ** 53 + 1, 2 ** 53 + 3, 1_700_000_000_123_456_789, -(2 ** 60) + 7, 2 ** 62 + 1, 5, -3,
+        -(2 ** 53) - 1]
+
+
 def _cell(fill, rows, nf):
     """A fresh cell array; about a third are integer-typed (numpy's casting on in-place field
-    arithmetic then matters; the model applies the very same numpy assignment)."""
+    arithmetic then matters; the model applies the very same numpy assignment).  In the 'bigint'
+    regime EVERY cell is int64 with values beyond 2**53 (time stamps, ids): nothing may detour
+    through float64."""
     g = np.random.Generator(np.random.PCG64(fill))
+    if _REGIME[0] == "bigint":
+        return np.asarray(_BIG, dtype=np.int64)[g.integers(0, len(_BIG), (rows, nf))] + g.integers(
+            0, 4, (rows, nf))
     a = np.round(g.uniform(-9, 9, (rows, nf)), 3)
     if fill % 3 == 0:
         return np.round(a).astype(np.int64)
@@ -313,6 +325,11 @@ def run(plan):
     def viol(oracle, detail, sig):
         res["violations"].append(Violation(oracle, f"{tagbox[0]}: {detail}", sig))
 
+    _REGIME[0] = plan["ops"][0].get("cells", "mixed")
+    big = _REGIME[0] == "bigint"
+    if big:
+        bump(probes, "bigint_cells")
+
     def create(op):
         shape, nf = tuple(op["shape"]), op["nf"]
         fields = [f"f{j}" for j in range(nf)] if op["named"] else None
@@ -399,12 +416,21 @@ def run(plan):
                 viol("flatten_raised", f"{slot}.flatten() raised {e!r}", "flatten_raised:" + sig)
                 raise _Stop()
             mf = m.flatten()
-            if not _arr_eq(np.asarray(fl, dtype=float), mf):
+            if np.asarray(fl).dtype.kind in "iu" and mf.dtype.kind in "iu":
+                flat_ok = np.asarray(fl).shape == mf.shape and bool(np.array_equal(np.asarray(fl), mf))
+            else:
+                flat_ok = _arr_eq(np.asarray(fl, dtype=float), mf)
+            if not flat_ok:
                 viol("flatten_mismatch", f"{slot}.flatten() shape {fl.shape} vs model {mf.shape}",
                      "flatten:" + sig)
             for j, f in enumerate(m.fields):
                 ff = v[f].flatten()
-                if not _arr_eq(np.asarray(ff, dtype=float), mf[:, j] if mf.size else np.empty((0,))):
+                col = mf[:, j] if mf.size else np.empty((0,))
+                if np.asarray(ff).dtype.kind in "iu" and col.dtype.kind in "iu":
+                    col_ok = np.asarray(ff).shape == col.shape and bool(np.array_equal(np.asarray(ff), col))
+                else:
+                    col_ok = _arr_eq(np.asarray(ff, dtype=float), col)
+                if not col_ok:
                     viol("field_flatten_mismatch", f"{slot}[{f!r}].flatten()={ff.tolist()} model="
                          f"{(mf[:, j] if mf.size else np.empty((0,))).tolist()}",
                          "field_flatten:" + sig)
@@ -584,7 +610,12 @@ def run(plan):
                 sym = op["sym"]
                 ints = [c for c in m.cells.values() if c is not None and c.dtype.kind in "iu"
                         and c.size]
-                if ints and (sym == "**" or max(float(np.abs(c).max()) for c in ints) > 1e12):
+                if big:
+                    # exact integer arithmetic only (no float operand, no overflow)
+                    if sym not in ("+", "-") or x != int(x):
+                        continue
+                    x = int(x)
+                elif ints and (sym == "**" or max(float(np.abs(c).max()) for c in ints) > 1e12):
                     # float -> int64 casts of out-of-range / NaN values are undefined behaviour in
                     # numpy (SIMD vs scalar paths differ): keep integer cells in a safe range
                     continue
@@ -637,13 +668,16 @@ def run(plan):
                 else:
                     vals = np.round(np.random.Generator(np.random.PCG64(op["fill"])).uniform(
                         -5, 5, tot), 3)
+                    if big:
+                        vals = _cell(op["fill"] + 5, max(tot, 1), 1)[:tot, 0].copy()
                     src = op.get("src", "array")
                     rhs = vals.copy()
                     if src == "list":
                         rhs = vals.tolist()
                     elif src in ("view_same", "view_other") and tot:
                         gj = op["fill"] % m.nf
-                        vals = np.asarray(m.flatten()[:, gj], dtype=float).copy()
+                        vals = np.asarray(m.flatten()[:, gj]).copy() if big else np.asarray(
+                            m.flatten()[:, gj], dtype=float).copy()
                         holder = v if src == "view_same" else v.copy()
                         rhs = holder[m.fields[gj]]
                         bump(probes, "field_assigned_from_field_view" + (
@@ -689,6 +723,8 @@ def run(plan):
                 npop = sum(1 for c in m.cells.values() if c is not None and c.shape[0])
                 if npop == 0:
                     continue
+                if big and (op["sym"] == "*" or op["x"] != int(op["x"])):
+                    continue
                 if npop == 1:
                     bump(probes, "flat_restore_single_populated_cell")
                 bump(probes, "flat_restore")
@@ -728,6 +764,8 @@ def run(plan):
                 n_mut[0] += 1
                 check_all("flat_restore")
             elif k == "add_fields":
+                if big:
+                    continue   # new columns are float zeros: the cells would turn float64
                 names = [f"n{op['tag']}_{q}" for q in range(op["n"])]
                 names = [x for x in names if x not in m.fields]
                 if not names:
@@ -848,6 +886,8 @@ def run(plan):
                 check_all("metadata")
             elif k == "rejected":
                 what = op["what"]
+                if big and what in ("wrong_columns_slice", "wrong_count"):
+                    continue   # their valid leading arrays are float zeros: would mix dtypes per vector
                 idx = tuple(i % s for i, s in zip(op["idx"], m.shape))
                 exp = None
                 try:
